@@ -443,6 +443,25 @@ def run_dls(rec, sh, tier, seed):
                     for nm, g, e in (("before", val[0], eb), ("after", val[1], ea)):
                         if tuple(g.shape) != tuple(e.shape) or not torch.allclose(g, e, atol=1e-5):
                             rec.violation("ablate:dls_" + nm, case, expected=list(e.shape), observed=list(g.shape))
+                # ablate with a seed of its own for the attribution function (0 is a seed like any other): the shuffles use ablate's seed,
+                # the function the seed it was given
+                if bs == 4:
+                    for fs in (0, 7):
+                        def dls_fs(x, a):
+                            return deep_lift_shap(model, x, args=a, n_shuffles=3, random_state=fs, device="cpu")
+                        case = dict(w="ablate", func="deep_lift_shap", B=B, L=L, n_args=nargs, batch_size=bs, ablate_seed=5, func_seed=fs)
+                        st, val = call(ablate, model, X, 1, L - 1, n=2, args=args, random_state=5, batch_size=bs, func=deep_lift_shap, device="cpu",
+                                       additional_func_kwargs=dict(n_shuffles=3, random_state=fs))
+                        rec.case(1, 1)
+                        if st != "ok":
+                            rec.violation("ablate:dls_raises", case, observed=val)
+                            continue
+                        Xs = shuffle(X, start=1, end=L - 1, n=2, random_state=5)
+                        ea = torch.stack([torch.cat([dls_fs(Xs[i, j:j + 1], [a[i:i + 1] for a in args] if args else None) for j in range(2)]) for i in range(B)])
+                        eb = torch.cat([dls_fs(X[i:i + 1], [a[i:i + 1] for a in args] if args else None) for i in range(B)])
+                        for nm, g, e in (("before", val[0], eb), ("after", val[1], ea)):
+                            if tuple(g.shape) != tuple(e.shape) or not torch.allclose(g, e, atol=1e-5):
+                                rec.violation("ablate:dls_" + nm + ":function_seed", case, expected=list(e.shape), observed=list(g.shape))
                 # space
                 case = dict(w="space", func="deep_lift_shap", B=B, L=L, n_args=nargs, batch_size=bs)
                 grid = [[0], [2], [1]]
@@ -455,6 +474,26 @@ def run_dls(rec, sh, tier, seed):
                                                  for g in grid]) for i in range(B)])
                     if tuple(val[1].shape) != tuple(ea.shape) or not torch.allclose(val[1], ea, atol=1e-5):
                         rec.violation("space:dls_after", case, expected=list(ea.shape), observed=list(val[1].shape))
+    # longer sequences, where different seeds really give different attributions: ablate's seed 5, the function's own seed 0 / 7 / 5
+    L2 = 24
+    model2 = LinModel(L2, seed)
+    X2 = _X(3, L2, seed)
+    ref5 = deep_lift_shap(model2, X2, n_shuffles=3, random_state=5, device="cpu")
+    for fs in (0, 7, 5):
+        kwf = dict(n_shuffles=3, random_state=fs, device="cpu")
+        case = dict(w="ablate", func="deep_lift_shap", B=3, L=L2, ablate_seed=5, func_seed=fs)
+        st, val = call(ablate, model2, X2, 4, 18, n=2, random_state=5, func=deep_lift_shap, device="cpu", additional_func_kwargs=dict(n_shuffles=3, random_state=fs))
+        rec.case(1, 1)
+        if st != "ok":
+            rec.violation("ablate:dls_raises", case, observed=val)
+            continue
+        eb = deep_lift_shap(model2, X2, **kwf)
+        Xs = shuffle(X2, start=4, end=18, n=2, random_state=5)
+        ea = deep_lift_shap(model2, Xs.reshape(-1, A, L2), **kwf).reshape(3, 2, A, L2)
+        if fs != 5 and torch.allclose(eb, ref5, atol=1e-6):
+            rec.note("function seeds %d and 5 give the same attributions here (vacuous probe)" % fs)
+        if not torch.allclose(val[0], eb, atol=1e-5) or not torch.allclose(val[1], ea, atol=1e-5):
+            rec.violation("ablate:dls_function_seed_not_honoured", case)
     rec.sample(dict(w="dls", L=L, wrappers=["marginalize", "ablate", "space"], func="deep_lift_shap(n_shuffles=3, random_state=5)"))
 
 
